@@ -1187,13 +1187,187 @@ func (pr planRes) pb() *resourcepb.Resource {
 }
 
 // ---------- OTLP logs ----------
-func runOTLPLogs(sum *vhlib.Summary, r *vhlib.Rng, evs []levent, cases *[]string) {
-	const ix = "otel-logs"
+const otlpDefaultIndex = "otel-logs"
+const otlpIdKindsIndex = "otel-logs-idkinds"
+
+// text of an attribute value as an identifier (what a reader of the attribute would print)
+func idText(v sv) string {
+	switch v.Kind {
+	case "s":
+		return v.S
+	case "i":
+		return strconv.FormatInt(v.I, 10)
+	case "b":
+		if v.B {
+			return "true"
+		}
+		return "false"
+	}
+	return v.json()
+}
+
+// the identifier a record carries: its own field when that is set, else the attribute of the same name
+// (the last one if the key is repeated), else none
+func idExpect(own []byte, attrs []kv, key string) (string, *string) {
+	var attr *string
+	for _, a := range attrs {
+		if a.K == key {
+			t := idText(a.V)
+			attr = &t
+		}
+	}
+	if len(own) > 0 {
+		return hex.EncodeToString(own), attr
+	}
+	if attr != nil {
+		return *attr, attr
+	}
+	return "", attr
+}
+
+func idMode(own []byte, attr *string) string {
+	switch {
+	case len(own) > 0 && attr == nil:
+		return "field"
+	case len(own) == 0 && attr != nil:
+		return "attribute"
+	case len(own) > 0 && *attr == hex.EncodeToString(own):
+		return "both_same"
+	case len(own) > 0:
+		return "both_different"
+	}
+	return "neither"
+}
+
+func idClass(key string, own []byte, attr *string, got sv) string {
+	switch {
+	case got.Kind != "s":
+		return "otlp_log_" + key + "_altered"
+	case len(own) > 0 && attr != nil && got.S == *attr:
+		return "otlp_log_" + key + "_field_overwritten_by_attribute"
+	case len(own) > 0 && got.S == "":
+		return "otlp_log_" + key + "_field_dropped"
+	case len(own) == 0 && attr != nil && got.S == "":
+		return "otlp_log_" + key + "_attribute_not_taken"
+	case len(own) == 0 && attr == nil:
+		return "otlp_log_" + key + "_invented"
+	}
+	return "otlp_log_" + key + "_altered"
+}
+
+// stream I: records that carry their two trace-context identifiers DIFFERENTLY. Each of trace id / span id is
+// carried in one of the ways {own field, attribute only, both with different values, neither}: all 16
+// combinations per round (round 0 in table order, later rounds shuffled, so neighbours inside one export
+// request differ), plus "both with the same value" extras. kinds=false: attribute values are hex strings
+// (what SDKs send); kinds=true: the trace_id attribute is an integer and the span_id attribute a boolean
+// (rendered with %v by the fall-back) -- these go to an index of their own, a key has one value kind per index.
+func idEvents(r *vhlib.Rng, rounds int, kinds bool) []levent {
+	var out []levent
+	hexs := func(n int) []byte {
+		b := make([]byte, n)
+		for j := range b {
+			b[j] = byte(r.Intn(256))
+		}
+		if b[0] == 0 {
+			b[0] = 0xa1
+		}
+		return b
+	}
+	pfx := "i"
+	if kinds {
+		pfx = "k"
+	}
+	mk := func(cid string, tm, sm int) levent {
+		e := levent{Cid: cid, Stream: "I", Msg: fmt.Sprintf("ids %s trace=%d span=%d", cid, tm, sm), Time: timeRep{Unit: "none"}}
+		if r.Chance(50) {
+			e.TimeNs = (uint64(1577836800000)+r.U64()%uint64(122163200000))*1000000 + r.U64()%1000000
+		}
+		e.Attrs = genAttrs(r, false)
+		var idAttrs []kv
+		for w, m := range []int{tm, sm} {
+			key, n := "trace_id", 16
+			if w == 1 {
+				key, n = "span_id", 8
+			}
+			var own []byte
+			if m == 0 || m == 2 || m == 4 {
+				own = hexs(n)
+			}
+			if m == 1 || m == 2 || m == 4 {
+				var v sv
+				switch {
+				case kinds && w == 0:
+					v = sv{Kind: "i", I: vhlib.Pick(r, []int64{0, 7, -42, 1234567890123, two53 - 1, -(two53 - 1)})}
+					if r.Chance(50) {
+						v.I = int64(r.Intn(1000000)) - 1000
+					}
+				case kinds:
+					v = sv{Kind: "b", B: r.Bool()}
+				case m == 4:
+					v = sv{Kind: "s", S: hex.EncodeToString(own)}
+				default:
+					v = sv{Kind: "s", S: hex.EncodeToString(hexs(n))}
+				}
+				idAttrs = append(idAttrs, kv{key, v})
+			}
+			if w == 0 {
+				e.Trace = own
+			} else {
+				e.Span = own
+			}
+		}
+		// the identifier attributes sit anywhere among the other attributes, in either order
+		if len(idAttrs) == 2 && r.Bool() {
+			idAttrs[0], idAttrs[1] = idAttrs[1], idAttrs[0]
+		}
+		for _, a := range idAttrs {
+			p := r.Intn(len(e.Attrs) + 1)
+			e.Attrs = append(e.Attrs[:p], append([]kv{a}, e.Attrs[p:]...)...)
+		}
+		return e
+	}
+	for rd := 0; rd < rounds; rd++ {
+		combos := make([][2]int, 0, 16)
+		for tm := 0; tm < 4; tm++ {
+			for sm := 0; sm < 4; sm++ {
+				combos = append(combos, [2]int{tm, sm})
+			}
+		}
+		if rd > 0 {
+			for j := len(combos) - 1; j > 0; j-- {
+				k := r.Intn(j + 1)
+				combos[j], combos[k] = combos[k], combos[j]
+			}
+		}
+		for _, c := range combos {
+			out = append(out, mk(fmt.Sprintf("%s%d_%d%d", pfx, rd, c[0], c[1]), c[0], c[1]))
+		}
+		if !kinds {
+			// both carried with the SAME value next to each way of carrying the other identifier
+			for m := 0; m < 4; m++ {
+				out = append(out, mk(fmt.Sprintf("%s%d_4%d", pfx, rd, m), 4, m), mk(fmt.Sprintf("%s%d_%d4", pfx, rd, m), m, 4))
+			}
+		}
+	}
+	return out
+}
+func runOTLPLogs(sum *vhlib.Summary, r *vhlib.Rng, evs []levent, cases *[]string, ix string) {
 	idxs := make([]int, len(evs))
 	for i := range evs {
 		idxs[i] = i
 	}
 	plans := planRequests(r, idxs, true)
+	if ix != otlpDefaultIndex {
+		// another index is chosen by the resource attribute siglensIndexName: every resource then has a
+		// Resource message whose first attribute names the index (the attribute is stored like any other)
+		for pi := range plans {
+			for ri := range plans[pi].Res {
+				pr := &plans[pi].Res[ri]
+				pr.Nil = false
+				pr.Attrs = append([]kv{{"siglensIndexName", sv{Kind: "s", S: ix}}}, pr.Attrs...)
+			}
+		}
+	}
 	wins := make([]window, len(evs))
 	for _, pl := range plans {
 		req := &collogpb.ExportLogsServiceRequest{}
@@ -1245,13 +1419,15 @@ func runOTLPLogs(sum *vhlib.Summary, r *vhlib.Rng, evs []levent, cases *[]string
 					e := evs[i]
 					o := pickObs(byCid, e.Cid, wins[i])
 					z := sv{Kind: "i", I: 0}
+					wantTrace, traceAttr := idExpect(e.Trace, e.Attrs, "trace_id")
+					wantSpan, spanAttr := idExpect(e.Span, e.Attrs, "span_id")
 					ex := expect{cols: map[string]sv{"attributes.cid": {Kind: "s", S: e.Cid}, "body": {Kind: "s", S: e.Msg},
 						"severity_text": {Kind: "s", S: "INFO"}, "severity_number": {Kind: "i", I: 9},
 						"scope.name": {Kind: "s", S: ps.Name}, "scope.version": {Kind: "s", S: ps.Version}, "scope.schema_url": {Kind: "s", S: ""},
 						"scope.dropped_attributes_count": z, "resource.dropped_attributes_count": z, "resource.schema_url": {Kind: "s", S: ""},
 						"dropped_attributes_count": z, "flags": {Kind: "i", I: 1}, "observed_time_unix_nano": z,
 						"time_unix_nano": {Kind: "i", I: int64(e.TimeNs)},
-						"trace_id": {Kind: "s", S: hex.EncodeToString(e.Trace)}, "span_id": {Kind: "s", S: hex.EncodeToString(e.Span)}},
+						"trace_id": {Kind: "s", S: wantTrace}, "span_id": {Kind: "s", S: wantSpan}},
 						exact: true, timeKnown: "otlp_log_time_replaced"}
 					own := map[string]bool{}
 					for _, a := range e.Attrs {
@@ -1277,6 +1453,31 @@ func runOTLPLogs(sum *vhlib.Summary, r *vhlib.Rng, evs []levent, cases *[]string
 					if got, ok := o.st.fields["scope.name"]; ok && o.found > 0 && got.S != ps.Name && earlier["scope.name="+got.S] {
 						fail(sum, "otlp_log_scope_inherited_from_previous_scope", fmt.Sprintf("otlp_log: record %s belongs to scope %q, stored scope.name=%q of an earlier scope of the request", e.Cid, ps.Name, got.S), c)
 						ex.cols["scope.name"] = got // reported once, under its own class
+					}
+					sum.Count("otlp_log/ids_trace:" + idMode(e.Trace, traceAttr) + "_span:" + idMode(e.Span, spanAttr))
+					// the two trace-context identifiers, each judged on its own: own field when present, else the
+					// attribute of the same name, else empty -- whatever the OTHER identifier looks like
+					for _, id := range []struct {
+						key  string
+						own  []byte
+						attr *string
+						oth  string
+					}{{"trace_id", e.Trace, traceAttr, "span_id:" + idMode(e.Span, spanAttr)}, {"span_id", e.Span, spanAttr, "trace_id:" + idMode(e.Trace, traceAttr)}} {
+						got, ok := o.st.fields[id.key]
+						if !ok || o.found == 0 {
+							continue // reported by checkStored as lost
+						}
+						want := ex.cols[id.key]
+						if got.eq(want) {
+							continue
+						}
+						at := "none"
+						if id.attr != nil {
+							at = fmt.Sprintf("%q", *id.attr)
+						}
+						fail(sum, idClass(id.key, id.own, id.attr, got), fmt.Sprintf("otlp_log: record %s: %s field=%q, attribute %s=%s (other identifier %s): must be stored as %v, stored as %v",
+							e.Cid, id.key, hex.EncodeToString(id.own), id.key, at, id.oth, want, got), c)
+						ex.cols[id.key] = got // reported once, under its own class
 					}
 					checkStored(sum, "otlp_log", e.Cid, ex, o, leakClass("otlp_log", earlier, ""), c)
 					for k := range own {
@@ -2173,7 +2374,7 @@ func main() {
 	sum := vhlib.NewSummary("one case = (logical event or datapoint, protocol) pushed through the real handler, flushed and read back by a match-all search / the PromQL query path, " +
 		"or one integer given to every real reader of a time value (boundary pool around each unit threshold +-2, 0, negatives, 10/13/16/19 digit values, random 1-19 digit values); " +
 		"events: time in one of {none, s, ms, ns} x {number, string}, 1-5 attributes (strings, ints incl. +-(2^53-1) and beyond, non-integral floats, bools), resource attributes, ids; " +
-		"stream A avoids the inputs of the known findings, stream B concentrates on them; distinct by (protocol, case id) resp. integer value; all are non-trivial except the integer 0")
+		"stream A avoids the inputs of the known findings, stream B concentrates on them; stream I (OTLP logs): each of trace id / span id carried as {own field, attribute only, both with different values, both the same, neither}, all combinations, attribute values as hex strings and (own index) as integers / booleans; distinct by (protocol, case id) resp. integer value; all are non-trivial except the integer 0")
 	r := vhlib.NewRng(cfg.Seed)
 	dir := filepath.Join(cfg.Out, "data")
 	_ = os.MkdirAll(dir, 0o755)
@@ -2211,8 +2412,18 @@ func main() {
 	runESRoutes(sum, r.Fork(), &logCases)
 	runHEC(sum, append(append([]levent{}, evs...), nEvs...), &logCases)
 	writeSharded(cfg, sum, "cases_logs", "list (lcase * list N * lobs)", "check_logs cases", logCases, 120)
-	runOTLPLogs(sum, r.Fork(), evs, &logReqCases)
+	runOTLPLogs(sum, r.Fork(), evs, &logReqCases, otlpDefaultIndex)
+	// stream I (own generator stream, the other streams stay as they were): the two trace-context identifiers carried differently
+	idRounds := 3
+	if cfg.Thorough() {
+		idRounds = 30
+	}
+	ri := vhlib.NewRng(cfg.Seed ^ 0x1d5c16e1d5c16e)
+	runOTLPLogs(sum, ri.Fork(), idEvents(ri.Fork(), idRounds, false), &logReqCases, otlpDefaultIndex)
 	writeSharded(cfg, sum, "cases_otlp_logs", "list (list res_logs * list lobs)", "check_logs_reqs (s2b \"otel-logs\") cases", logReqCases, 12)
+	var idKindCases []string
+	runOTLPLogs(sum, ri.Fork(), idEvents(ri.Fork(), (idRounds+1)/2, true), &idKindCases, otlpIdKindsIndex)
+	writeSharded(cfg, sum, "cases_otlp_logs_idkinds", "list (list res_logs * list lobs)", "check_logs_reqs (s2b \""+otlpIdKindsIndex+"\") cases", idKindCases, 12)
 	runSpans(sum, r.Fork(), evs, &traceReqCases)
 	writeSharded(cfg, sum, "cases_otlp_traces", "list (list res_spans * list lobs)", "check_trace_reqs (s2b \"traces\") cases", traceReqCases, 12)
 
